@@ -770,7 +770,7 @@ def explicit_rule(ctx, r):
 
 def run(ctx):
     facts = ctx.facts
-    with ctx.rule("C05.BASE", "a parent matcher taken from the cache is re-based to the root it is handed out for", floor=1,
+    with ctx.rule("C05.BASE", "parent matchers and candidate paths are re-based on the search root they belong to", floor=3,
                   kind="PASS") as r:
         # Parent-directory ignore files are matched against absolute_base.join(path). add_parents caches the parent
         # matchers by directory; a hit returns a matcher built for *another* root. Unless the function looks at / writes
@@ -813,6 +813,35 @@ def run(ctx):
                 r.bad("add_parents|cache", "add_parents can return a cached parent matcher built for another root without touching "
                       "absolute_base: with several roots under one parent, that parent's anchored ignore rules are matched "
                       "against paths re-based under the first root", fn=f, construct="absolute_base")
+        # ... and a candidate path is re-based by replacing the *search root's* path with absolute_base (the root's own
+        # absolute path). Replacing the path of the directory being read instead drops the components between the root
+        # and that directory: a parent's anchored rule /sub/file then hits sub/deep/file and /sub/deep/file hits nothing.
+        mi = facts.fn("ignore::dir::Ignore::matched_ignore")
+        ebm = ExprBuilder(mi)
+        sp = [c for c in mi.calls() if c.path.endswith("pathutil::strip_prefix")]
+        pref = [c for c in sp if any(x.k == "field" and x[3] == "dir" for x in walk(ebm.operand(c.args[0]))) or
+                any(x.k in ("phi", "local") for x in walk(ebm.operand(c.args[0])))]
+        via_root = [c for c in sp if mentions_call(ebm.operand(c.args[0]), "ignore::dir::Ignore::parents") or
+                    any(mentions_call(x, "ignore::dir::Ignore::parents") for x in walk(ebm.operand(c.args[0])))]
+        pclos = [cl for cl in facts.closures_of(mi.path) if any(fl == "is_absolute_parent" for o, fl in field_rw(cl)[0])]
+        if sp and via_root and pclos:
+            r.ok("matched_ignore|rebase", "the stripped prefix is the directory of the outermost non-absolute matcher (the search root)", fn=mi)
+        elif sp:
+            r.bad("matched_ignore|rebase", "matched_ignore replaces the path of the directory being read (self.dir), not the search "
+                  "root's, by absolute_base: below the first level a parent's anchored rules are matched against a path with "
+                  "components missing", fn=mi, loc=sp[0].loc, construct="rebase")
+        else:
+            r.bad("matched_ignore|rebase", "anchor-missing: matched_ignore no longer strips a prefix before joining absolute_base", fn=mi)
+        # strip_prefix works on bytes and the candidate has already lost its leading "./": a root spelled "." must not be
+        # stripped at all, or the dot of a hidden name goes with it (".env" is then matched as "env")
+        dotcmp = cond_switches(mi, lambda e: is_call(e, "core::cmp::PartialEq::eq") and
+                               any(x.k == "const" and x[2] and str(x[2]).strip() == '"."' for x in walk(e)), ebm)
+        if dotcmp:
+            r.ok("matched_ignore|dot-root", "a search root spelled `.` is not stripped from the candidate path", fn=mi)
+        else:
+            r.bad("matched_ignore|dot-root", "matched_ignore strips the root path `.` byte-wise from a candidate that no longer starts "
+                  "with `./`: for `rg --hidden PATTERN .` the parents' rules see `.env` as `env` and stop applying to dotfiles",
+                  fn=mi, construct="dot-root")
     with ctx.rule("C05.GLOBROOT", "the -g / --pre-glob override matchers are rooted at the working directory", floor=3, kind="WIRE") as r:
         # An override glob with a slash is anchored to the matcher's root, and Gitignore::strip only removes that root
         # from a candidate path. Rooted anywhere but the process working directory, an anchored -g glob never matches
